@@ -149,6 +149,7 @@ class Run(object):
         self.stats = stats
         self.d = None
         self.L = []
+        self.twin = None
 
     def fail(self, read, detail):
         raise common.Violation(read, detail)
@@ -433,18 +434,25 @@ class Run(object):
                 self.observe(c, L)
             except common.Violation as v:
                 self.fail('copy[%s]' % how, 'copy differs: %s' % v)
-            c.add('zz-probe', 0)
-            try:
-                self.observe(d, L)
-            except common.Violation as v:
-                self.fail('copy[%s]' % how, 'mutating the copy changed the source: %s' % v)
-            c.poplast('zz-probe')
-            d.add('zz-probe2', 0)
-            try:
-                self.observe(c, L)
-            except common.Violation as v:
-                self.fail('copy[%s]' % how, 'mutating the source changed the copy: %s' % v)
-            self.d = c   # continue with the copy: it must be a fully working OMD
+            # mutate one, re-read the other: under a fresh key and under a key both already hold
+            probes = ['zz-probe'] + ([L[0][0]] if L else [])
+            for pk in probes:
+                c.add(pk, 'probe')
+                try:
+                    self.observe(d, L)
+                except common.Violation as v:
+                    self.fail('copy[%s]' % how, 'mutating the copy changed the source: %s' % v)
+                c.poplast(pk)
+                d.add(pk, 'probe2')
+                try:
+                    self.observe(c, L)
+                except common.Violation as v:
+                    self.fail('copy[%s]' % how, 'mutating the source changed the copy: %s' % v)
+                d.poplast(pk)
+            # continue with the copy (it must be a fully working OMD) and keep the source alive as a
+            # twin that must keep reading as it did, whatever later happens to the copy
+            self.twin = (d, list(L))
+            self.d = c
         else:
             raise ValueError(op)
 
@@ -545,6 +553,12 @@ class Check(object):
             try:
                 run.step(op)
                 run.observe()
+                if run.twin is not None:
+                    try:
+                        run.observe(run.twin[0], run.twin[1])
+                    except common.Violation as v:
+                        raise common.Violation('aliasing', 'the object this OMD was copied from changed '
+                                               'when the copy was mutated: %s' % v)
             except common.Violation as v:
                 f = Failure(i, v.read, v.detail, op)
                 f.model = list(run.L)
@@ -564,6 +578,8 @@ class Check(object):
 
     def signature(self, history, failure):
         pre = '' if self.clsname == 'OMD' else self.clsname + ':'
+        if failure.cls() == 'aliasing':
+            return pre + 'copy:aliasing-shows-later'
         if failure.read.split('[')[0] not in ('result', 'state', 'copy', 'raised'):
             # does the same read fail on an object freshly built by add() alone?  then it is a
             # defect of the read itself, whatever operation happened to precede it
